@@ -81,6 +81,37 @@ Theorem C14_src_param_fallback_guard :
 Proof. exact Struct_Tokens_Proofs.param_fallback_guard. Qed.
 Print Assumptions C14_src_param_fallback_guard.
 
+(* Blocker::apply_removeparam itself, re-read from src/blocker.rs on every run
+   (tools/gen_fragments/c14_removeparam_structure.py -> Generated.RpGen) and interpreted statement by
+   statement with bounds-checked slices: for every URL and every list of rule names it IS the model
+   every theorem of this file speaks about, and no slice of the function is ever out of range. *)
+From Adb Require Struct_Rp_Proofs.
+Theorem C14_src_apply_removeparam_is_model : forall (names : list str) (url : str),
+  Struct_Rp_Proofs.interp_rp names url = Some (apply_removeparam names url).
+Proof. exact Struct_Rp_Proofs.interp_rp_is_model. Qed.
+Print Assumptions C14_src_apply_removeparam_is_model.
+
+Theorem C14_src_apply_removeparam_never_out_of_range : forall (names : list str) (url : str),
+  Struct_Rp_Proofs.interp_rp names url <> None.
+Proof. exact Struct_Rp_Proofs.interp_rp_never_stuck. Qed.
+Print Assumptions C14_src_apply_removeparam_never_out_of_range.
+
+(* the marking loop of the source (one pass over the parameters per matching rule) is the model's
+   single filter: a parameter stays iff no rule removes it, and a rewrite is reported iff some
+   parameter goes — whatever the order and multiplicity of the matching rules *)
+Theorem C14_src_marking_loop_is_filter : forall (names : list str) (ps : list str),
+  Struct_Rp_Proofs.mark_loop names
+    (map (fun pair => (Struct_Rp_Proofs.parse_param pair, RpGen.initially_kept)) ps) RpGen.rewrite_start =
+  (map (fun p => (Struct_Rp_Proofs.parse_param p, kept names p)) ps, negb (forallb (kept names) ps)).
+Proof. exact Struct_Rp_Proofs.marked_params. Qed.
+Print Assumptions C14_src_marking_loop_is_filter.
+
+(* printing a parsed parameter gives the parameter back, byte for byte *)
+Theorem C14_src_show_parse : forall p : str,
+  Struct_Rp_Proofs.show (Struct_Rp_Proofs.parse_param p) = p.
+Proof. exact Struct_Rp_Proofs.show_parse. Qed.
+Print Assumptions C14_src_show_parse.
+
 (* ------------------------------------------------------------------ the parameter-name fallback.
    A pattern-less `$removeparam=name` rule matches every request but is indexed under the tokens of
    its name, so the token guarantee TG is FALSE for it on a URL without that parameter
